@@ -26,7 +26,7 @@ func init() {
 			"testdrv time stamps carry one constant offset per session (Listen stamps the real clock, Sleep moves a virtual one): the monitor requires one offset in [-60 s, 0] consistent with every delivery; exact stamps are decided at the drivers.Reader level",
 			"F8..FF are all treated as real-time (delivered as one-byte messages)",
 		},
-		Require:         []string{"runs_l1", "runs_l2", "elisions", "rt_inside_message", "rt_inside_sysex", "sysex_exact_buffer", "split_inside_message", "deliveries_checked", "generator_crosschecks", "sysex_sweep_lengths", "sandwich_chunks", "reconfigured_sessions", "clock_wrap_streams", "giant_sysex_streams", "nested_runs_l1", "nested_runs_l2", "nested_rest_starts_in_running_status", "stall_runs_over_2s", "pauses_over_1s_inside_a_message", "pauses_over_1s_inside_a_sysex"},
+		Require:         []string{"runs_l1", "runs_l2", "elisions", "rt_inside_message", "rt_inside_sysex", "sysex_exact_buffer", "split_inside_message", "deliveries_checked", "generator_crosschecks", "sysex_sweep_lengths", "sandwich_chunks", "reconfigured_sessions", "clock_wrap_streams", "giant_sysex_streams", "empty_deliveries", "nested_runs_l1", "nested_runs_l2", "nested_rest_starts_in_running_status", "stall_runs_over_2s", "pauses_over_1s_inside_a_message", "pauses_over_1s_inside_a_sysex"},
 		FakeTimeWorkers: 2,
 		Run:             runC04,
 	})
@@ -655,6 +655,10 @@ func runC04(c *mon.Ctx) {
 		for _, p := range parts[:len(parts)-1] {
 			off += p
 			cuts = append(cuts, off)
+			if r.P(1, 6) {
+				cuts = append(cuts, off) // the same cut twice: a delivery without data, with a delta of its own
+				c.Count("empty_deliveries", 1)
+			}
 		}
 		k.check(w, cuts, rd(len(cuts)+1), cfg, withL2, label)
 		c.DistinctBytes(w.Bytes, []byte(cfg.String()))
